@@ -313,6 +313,10 @@ class Exec(object):
             self.cur = i
             self.act(a)
             self.reused.append(self.used_old)
+            if self.obs == 'end' and i < len(actions) - 1:
+                # no observation between the steps: a client's caches hold only what the
+                # history itself made it touch
+                continue
             self.observe(self.obs == 'full' or i == len(actions) - 1)
         return self
 
@@ -424,7 +428,8 @@ def gen_history(rng):
             acts.append(['create_collection', rng.choice([0, 2]), 'd1', 'new', m])
     while len(acts) < n:
         acts.append(gen_action(rng, None))
-    obs = 'full' if rng.random() < 0.75 else 'light'
+    x = rng.random()
+    obs = 'full' if x < 0.65 else ('light' if x < 0.82 else 'end')
     return {'actions': acts[:30], 'obs': obs}
 
 
